@@ -55,24 +55,25 @@ def fifo_configs(thorough):
     add("Bit", (2, 3, 4, 5), [(0, 0)])
     add("BitVector[2]", (2, 3, 4, 5), [(0, 0)])
     add("Bit", (2, 3, 4), QUICK_DELAYS)
-    add("Bit", (5,), [(1, 1)])
     add("BitVector[2]", (2,), QUICK_DELAYS)
     add("BitVector[2]", (3,), [(1, 1)])
     add("Bit", (2, 3), ONE_SIDED)
     add("Bit", (2, 3), [(0, 0)] + QUICK_DELAYS + ONE_SIDED, ("2o",))
     add("Bit", (2, 3), [(0, 0), (1, 1)], ("2b",))
     if thorough:
+        add("Bit", (6, 7, 8), [(0, 0)])
+        add("BitVector[2]", (6,), [(0, 0)], (1, 2))
+        add("Bit", (5,), QUICK_DELAYS)
+        add("Bit", (6,), [(1, 1)])
+        add("Bit", (4, 5), ONE_SIDED)
+        add("Bit", (2, 3, 4, 5), MORE_DELAYS)
+        add("BitVector[2]", (3,), QUICK_DELAYS)
+        add("BitVector[2]", (4,), [(1, 1)])
+        add("BitVector[2]", (2, 3), ONE_SIDED + [(2, 2), (0, 2), (2, 0)])
         add("Bit", (4, 5), [(0, 0)] + QUICK_DELAYS + ONE_SIDED, ("2o",))
         add("BitVector[2]", (2, 3), [(0, 0)] + QUICK_DELAYS, ("2o",))
         add("Bit", (2, 3), MORE_DELAYS, ("2o",))
         add("Bit", (2, 3), QUICK_DELAYS[1:] + ONE_SIDED, ("2b",))
-        add("Bit", (6, 7, 8), [(0, 0)])
-        add("BitVector[2]", (6,), [(0, 0)])
-        add("Bit", (5, 6), QUICK_DELAYS)
-        add("Bit", (4, 5), ONE_SIDED)
-        add("Bit", (2, 3, 4, 5), MORE_DELAYS)
-        add("BitVector[2]", (3, 4), QUICK_DELAYS)
-        add("BitVector[2]", (2, 3), ONE_SIDED + MORE_DELAYS)
     return out
 
 
